@@ -356,6 +356,21 @@ func runCheck(cfg *runConfig) int {
 	}
 	genS := time.Since(genT0).Seconds()
 	pool.wait()
+	// an obligation that ran out of time while sixteen others were competing for the cores gets a
+	// second, longer look on a quiet machine before it is reported
+	for _, o := range all {
+		if o.Cover || o.Query == "" || (o.Status != "timeout" && o.Status != "unknown") {
+			continue
+		}
+		r := pool.solveWith(o.Name+" (retry)", o.Query+"\n; retry\n", 3*timeout)
+		o.Status, o.Solver, o.Time = r.status, r.solver, o.Time+r.time
+		if r.status != "unsat" {
+			o.Model = r.output
+		} else {
+			o.Model = ""
+		}
+		o.Query = ""
+	}
 	if cfg.verbose {
 		fmt.Fprintf(os.Stderr, "generation %.1fs\n", genS)
 	}
